@@ -27,8 +27,18 @@ def check_case(ctx, binary, case):
         return
     seed = (ctx.seed * 7919 + case["index"]) & 0x7fffffff
     args = ["--emit-qasm"] + (["--shots=%d" % shots] if shots else [])
-    r, events, qfile, _ = core.run_bloch(binary, src, args=args, env={"BLOCH_VERIF_SEED": str(seed)},
-                                         trace=True, state="final")
+    # source file names with extra dots and dotted directories: the listing is written "next to
+    # the source" under the same stem
+    fname = ["prog.bloch", "my.prog.v2.bloch", "dir.v1/prog.bloch", "prog.bloch", "a.b/c.d.bloch"][case["index"] % 5]
+    r, events, qfile, d = core.run_bloch(binary, src, args=args, env={"BLOCH_VERIF_SEED": str(seed)},
+                                         trace=True, state="final", fname=fname, keep=True)
+    produced = []
+    for dp, _, fs in os.walk(d):
+        for f in fs:
+            if f.endswith(".qasm"):
+                produced.append(os.path.relpath(os.path.join(dp, f), d))
+    import shutil
+    shutil.rmtree(d, ignore_errors=True)
     cls = r.classify()
     files = {"prog.bloch": src, "stdout.txt": r.stdout[-8000:], "stderr.txt": r.stderr[-3000:]}
     if cls[0] != "ok":
@@ -44,6 +54,10 @@ def check_case(ctx, binary, case):
     if i < 0:
         ctx.violation("qasm:missing", "--emit-qasm printed no OpenQASM text", case, files)
         return
+    want_file = os.path.splitext(fname)[0] + ".qasm"
+    if sorted(produced) != [want_file]:
+        ctx.violation("qasm:file-location", "source %s: expected exactly %s, the run wrote %r" %
+                      (fname, want_file, sorted(produced)), case, files)
     if qfile != text:
         ctx.violation("qasm:file-vs-stdout", "the .qasm file differs from the --emit-qasm output", case,
                       dict(files, **{"file.qasm": qfile or "<missing>"}))
